@@ -284,8 +284,9 @@ class Summariser:
         def walk(t, conds):
             if isinstance(t, Leaf):
                 s = t.state
-                kind = s.term or "fall"
-                paths.append(Path(tuple(conds), s.effects, kind, text(s.value) if s.value is not None else None, s.value))
+                kind = s.term or "return"  # falling off the end returns None
+                value = s.value if s.value is not None else Term("None")
+                paths.append(Path(tuple(conds), s.effects, kind, text(value), value))
                 return
             walk(t.t, conds + list(t.cond[0]))
             walk(t.f, conds + list(t.cond[1]))
@@ -432,6 +433,11 @@ class Summariser:
                     return self.block(rest, merged)
                 # some path ended: continue every live leaf separately
                 return Node((ct, cf), self._continue(tt, rest), self._continue(ft, rest))
+            if st.__class__.__name__ == "InlineBlock":
+                # body of an inlined helper (sa.inline): part of this statement list unless it leaves early
+                if any(x.__class__.__name__ == "LeaveBlock" for x in ast.walk(st)):
+                    raise Unsupported("inlined helper with early exits")
+                return self.block(list(st.body) + list(stmts[i + 1:]), state)
             state = self.stmt(st, state)
             if state.term is not None:
                 return Leaf(state)
@@ -469,17 +475,49 @@ class Summariser:
         a, b = self.collapse(tree.t, loop_body), self.collapse(tree.f, loop_body)
         return self.merge(tree.cond, a, b)
 
-    def merge(self, cpair, a: State, b: State) -> State:
-        ctext, swapped = self.orient(*cpair)
+    def mk_if(self, ct, cf, a, b, boolean_parts=False):
+        """Canonical conditional node ('if', text, a, b) for effects and sequence parts: nested single-armed ifs are
+        flattened into one conjunction, the orientation is the canonical one."""
+        a, b = tuple(a), tuple(b)
+
+        def single_armed(x):
+            """(atoms of the inner condition, inner body) when x is exactly one `if c: body` without else."""
+            if len(x) == 1 and x[0][0] == "if" and x[0][1] in self.atoms:
+                ict, icf = self.atoms[x[0][1]]
+                if not x[0][3]:
+                    return ict, x[0][2]
+                if not x[0][2]:
+                    return icf, x[0][3]
+            return None
+
+        if not b and single_armed(a) is not None:
+            inner, body = single_armed(a)
+            both = sorted(set(ct) | set(inner))
+            return self.mk_if(both, [("ALL[" + cnd._signed(both) + "]", False)], body, ())
+        if not a and single_armed(b) is not None:
+            inner, body = single_armed(b)
+            both = sorted(set(cf) | set(inner))
+            return self.mk_if(both, [("ALL[" + cnd._signed(both) + "]", False)], body, ())
+        ctext, swapped = self.orient(ct, cf)
         if swapped:
             a, b = b, a
+        if boolean_parts:
+            return _if_part(ctext, a, b)
+        return ("if", ctext, a, b)
+
+    def merge(self, cpair, a: State, b: State) -> State:
+        ct, cf = cpair
         k = 0
         while k < len(a.effects) and k < len(b.effects) and a.effects[k] == b.effects[k]:
             k += 1
         effects = list(a.effects[:k])
         ra, rb = a.effects[k:], b.effects[k:]
         if ra or rb:
-            effects.append(("if", ctext, tuple(ra), tuple(rb)))
+            effects.append(self.mk_if(ct, cf, ra, rb))
+        ctext, swapped = self.orient(ct, cf)
+        if swapped:
+            a, b = b, a
+            ct, cf = cf, ct
         if a.term == "dead" and b.term == "dead":
             s = State(dict(a.env), effects)
             s.term = "dead"
@@ -491,6 +529,12 @@ class Summariser:
         env = {}
         for name in set(a.env) | set(b.env):
             va, vb = a.env.get(name), b.env.get(name)
+            if name == "__k__":
+                env[name] = max(va or 0, vb or 0)
+                continue
+            if name == "__loops__":
+                env[name] = va if len(va or ()) >= len(vb or ()) else vb
+                continue
             if va is None or vb is None:
                 env[name] = Term(f"{name}@maybe")
             elif text(va) == text(vb) and type(va) is type(vb):
@@ -500,7 +544,7 @@ class Summariser:
                 j = 0
                 while j < len(va.parts) and j < len(vb.parts) and va.parts[j] == vb.parts[j]:
                     j += 1
-                env[name] = Seq(va.kind, va.parts[:j] + (_if_part(ctext, va.parts[j:], vb.parts[j:]),))
+                env[name] = Seq(va.kind, va.parts[:j] + (self.mk_if(ct, cf, va.parts[j:], vb.parts[j:], boolean_parts=True),))
             else:
                 kind = getattr(va, "kind", None) if getattr(va, "kind", None) == getattr(vb, "kind", None) else None
                 env[name] = self.cond_term(ctext, va, vb, kind)
@@ -603,9 +647,9 @@ class Summariser:
 
     # ------------------------------------------------------------------ loops
     def loop(self, st, state) -> State:
-        self.loop_id += 1
-        k = self.loop_id
         env = state.env
+        k = env.get("__k__", 0) + 1  # loops are numbered along the path, not in exploration order
+        env["__k__"] = k
         idx = Poly.sym(f"_i{k}")
         bind = {}
         count = None
@@ -706,9 +750,7 @@ class Summariser:
         for v in carried:
             env1[v] = marker(v)
         env1.update(bind)
-        saved = self.loop_id
         m1 = run_body(env1)
-        self.loop_id = saved
         induction, accs, opaque, threaded = {}, [], [], {}
         local = lambda s: "@it" in s or s == f"_i{k}" or s.startswith(f"_e{k}")  # noqa: E731
         for v in carried:
@@ -774,6 +816,7 @@ class Summariser:
             effects.append(("rep", header, tuple(m2.effects)))
         res = State(out, effects)
         res.env["__loops__"] = env.get("__loops__", ()) + ((k, header, text(count)),)
+        res.env["__k__"] = max(k, m2.env.get("__k__", k))
         return res
 
     def _solve_count(self, test, env2, k):
@@ -847,12 +890,12 @@ class Summariser:
         if isinstance(node, ast.IfExp):
             ct, cf, _ = self.cond(node.test, env)
             a, b = self.ev(node.body, env), self.ev(node.orelse, env)
+            if (isinstance(a, Seq) or isinstance(b, Seq)) and _as_seq(a) is not None and _as_seq(b) is not None and _as_seq(a).kind == _as_seq(b).kind:
+                a, b = _as_seq(a), _as_seq(b)
+                return Seq(a.kind, (self.mk_if(ct, cf, a.parts, b.parts, boolean_parts=True),))
             ctext, swapped = self.orient(ct, cf)
             if swapped:
                 a, b = b, a
-            if (isinstance(a, Seq) or isinstance(b, Seq)) and _as_seq(a) is not None and _as_seq(b) is not None and _as_seq(a).kind == _as_seq(b).kind:
-                a, b = _as_seq(a), _as_seq(b)
-                return Seq(a.kind, (_if_part(ctext, a.parts, b.parts),))
             kind = getattr(a, "kind", None) if getattr(a, "kind", None) == getattr(b, "kind", None) else None
             return self.cond_term(ctext, a, b, kind)
         if isinstance(node, ast.Call):
